@@ -46,6 +46,7 @@ def model_of(m, P, V, opc):
     if t is not None:
         d['tgt'] = mval(m, t); d['tgt_opc'] = mval(m, V.opc_at(t))
     d['last_opc'] = mval(m, V.opc_at(P.n - 1))
+    if getattr(P, 'carried', None): d['carried'] = {k: str(m.eval(v.t, model_completion=True)) for k, v in P.carried.items()}
     return d
 
 
@@ -198,15 +199,23 @@ def replay_c06(c):
     if md is None: return True, 'structural finding'
     prog = build_program(md)
     if prog is None: return None, 'model too large to replay'
-    d = Driver.get('dev')
-    r = d.request(dict(op='load', prog=prog.hex()))
-    want, why = ref.wf(prog)
-    c['replay'] = dict(prog=prog.hex() if len(prog) <= 1024 else f'<{len(prog)} bytes>', native=r, reference=[want, why])
-    for api in ('new', 'set_program'):
-        got = r.get(api)
-        if got == 'panic': return True, f'{api} panics: {r.get("msg")}'
-        if (got == 'ok') != want: return True, f'{api} says {got} ({r.get("msg", "")}), the statement says {"well-formed" if want else "ill-formed: " + str(why)}'
-    return False, f'native verdict {r.get("new")} agrees with the statement ({why})'
+    d = Driver.get('dev'); last = None
+    # the loop body is checked from an arbitrary value of any loop-carried verifier state; a counterexample that depends on it
+    # needs a history: the same program behind one earlier instruction of each kind is tried as well (relative targets are unchanged)
+    hist = [b'', ref.insn(0x62, 10, 0, -4, 0), ref.insn(0x7b, 10, 1, -8, 0), ref.insn(0x61, 1, 10, -4, 0), ref.lddw(1, 1), ref.insn(0x05, 0, 0, 0, 0),
+            ref.insn(0x15, 1, 0, 0, 0), ref.insn(0x85, 0, 0, 0, 1), ref.insn(0xdc, 1, 0, 0, 16), ref.insn(0xdb, 10, 1, -8, 0), ref.insn(0x07, 1, 0, 0, 1)]
+    for h in hist:
+        p2 = h + prog
+        r = d.request(dict(op='load', prog=p2.hex()))
+        want, why = ref.wf(p2)
+        c['replay'] = dict(prog=p2.hex() if len(p2) <= 1024 else f'<{len(p2)} bytes>', native=r, reference=[want, why])
+        for api in ('new', 'set_program'):
+            got = r.get(api)
+            if got == 'panic': return True, f'{api} panics: {r.get("msg")}'
+            if (got == 'ok') != want: return True, f'{api} says {got} ({r.get("msg", "")}), the statement says {"well-formed" if want else "ill-formed: " + str(why)}' + (f' [with the earlier instruction {h.hex()}]' if h else '')
+        last = (r, why)
+        if not md.get('carried'): break
+    return False, f'native verdict {last[0].get("new")} agrees with the statement ({last[1]})'
 
 
 def run():
